@@ -319,7 +319,16 @@ func c16Child(t *testing.T) {
 		done := make(chan result, 1)
 		ctx, cancel := context.WithCancel(context.Background())
 		scNo, scEp := sc.Sc, sc.Ep
+		// intermediate lines (Decoded, Use, Aux) belong to the call: nothing is written for it once it has ended (a
+		// goroutine the real code left behind may still ask a fake)
+		var emu sync.Mutex
+		ended := false
 		ctx = context.WithValue(ctx, c16EmitKey{}, func(ev c16Line) {
+			emu.Lock()
+			defer emu.Unlock()
+			if ended {
+				return
+			}
 			ev["sc"], ev["ep"] = scNo, scEp
 			log.write(ev)
 		})
@@ -334,6 +343,9 @@ func c16Child(t *testing.T) {
 		}()
 		select {
 		case r := <-done:
+			emu.Lock()
+			ended = true
+			emu.Unlock()
 			switch {
 			case r.crash && strings.HasPrefix(r.text, "c16 harness:"):
 				// the harness itself is broken: never a verdict
@@ -474,6 +486,10 @@ func c16RunLane(t *testing.T, dir string, lane string, scenarios []c16Scenario) 
 		if text == "" {
 			return nil, fmt.Errorf("lane %s: child died in scenario %d without a panic message (%v):\n%s", lane, sc, runErr, c16Short(stderr.String(), 3000))
 		}
+		if strings.Contains(text, "c16 harness:") {
+			// the harness itself is broken (a panic outside the protected goroutines): never a verdict
+			return nil, fmt.Errorf("lane %s: harness error in scenario %d: %s", lane, sc, text)
+		}
 		if decoder != "" {
 			all = append(all, c16Line{"sc": sc, "ev": "DecoderPanic", "ep": (*pending)["ep"], "text": c16Short(text, 200), "decoder": decoder, "via": frame, "fatal": true})
 		} else {
@@ -566,7 +582,7 @@ func TestVerifC16(t *testing.T) {
 	var mu sync.Mutex
 	var wg sync.WaitGroup
 	// most lanes wait (timeouts of strategies and clients, held calls) rather than compute
-	sem := make(chan struct{}, 16)
+	sem := make(chan struct{}, 24)
 	var firstErr error
 	for _, n := range names {
 		wg.Add(1)
